@@ -3,7 +3,8 @@
    Forest/ExplicitBuild_proofs.v (layer A: parser -> forest).  The models are hand-written
    (Forest/ExplicitToTree.v, Forest/ExplicitBuild.v) and tied to lark on every run by harness/props/C04.py. *)
 From Coq Require Import String Ascii Bool Arith List.
-From LV Require Import Base.Prelude Forest.ExplicitToTree Forest.ExplicitCheck Forest.ExplicitToTree_proofs.
+From LV Require Import Base.Prelude Cfg.Grammar Earley.Spec Forest.ExplicitToTree Forest.ExplicitCheck Forest.ExplicitToTree_proofs
+  Forest.ExplicitBuild Forest.ExplicitBuild_proofs Forest.ExplicitBuildCheck.
 Import ListNotations.
 Local Open Scope string_scope.
 Local Open Scope list_scope.
@@ -51,6 +52,71 @@ Theorem C04_collapse_none_refuted :
   /\ collapse f6_tree = Ok (expand f6_tree) /\ collapse f6b_tree = Ok (expand f6b_tree).
 Proof. exact collapse_none_refuted. Qed.
 Print Assumptions C04_collapse_none_refuted.
+
+(* Layer A.  A forest is a set of (node label, packed family) pairs; labels carry the span, as lark's node cache
+   keys (s, start, end) do.  If every family has the local form of an add_family call (forest_okb, evaluated by
+   the harness on every captured forest, cyclic ones included), then every derivation stored below a node -
+   every finite unfolding, so this covers cyclic forests - is a well-formed derivation of the node's symbol
+   whose lexemes tile the input between the node's positions. *)
+Theorem C04_A_sound (G : grammar) (tok : Type) tmatch tlen occurs fams :
+  forest_okb G tok tmatch tlen occurs fams = true ->
+  forall lbl ds, den tok (in_forest tok fams) lbl ds -> sound G tok tmatch tlen occurs lbl ds.
+Proof. exact (A_sound G tok tmatch tlen occurs fams). Qed.
+Print Assumptions C04_A_sound.
+
+Theorem C04_A_sound_root (G : grammar) (tok : Type) tmatch tlen occurs fams a i j ds :
+  forest_okb G tok tmatch tlen occurs fams = true ->
+  den tok (in_forest tok fams) (NSym tok a i j) ds ->
+  exists d, ds = [d] /\ derives G tok tmatch [NT a] (yield tok d) /\ tiles tok tlen occurs i j (yield tok d).
+Proof. exact (A_sound_root G tok tmatch tlen occurs fams a i j ds). Qed.
+Print Assumptions C04_A_sound_root.
+
+(* the families added at the three add_family call sites over the chart of Earley/Spec have that local form,
+   hence every tree below the root (start, 0, |w|) of the forest the parser builds derives exactly w *)
+Theorem C04_A_added_ok (G : grammar) (tok : Type) tmatch (w : list tok) start occurs :
+  (forall x i, occurs x i = true <-> nth_error w i = Some x) ->
+  forall lbl f, added G tok tmatch w start lbl f -> fam_ok G tok tmatch (tlen1 tok) occurs lbl f.
+Proof. exact (A_added_ok G tok tmatch w start occurs). Qed.
+Print Assumptions C04_A_added_ok.
+
+Theorem C04_A_sound_sentence (G : grammar) (tok : Type) tmatch (w : list tok) start occurs :
+  (forall x i, occurs x i = true <-> nth_error w i = Some x) ->
+  forall ds, den tok (added G tok tmatch w start) (NSym tok start 0 (length w)) ds ->
+  exists d, ds = [d] /\ yield tok d = w /\ derives G tok tmatch [NT start] w.
+Proof. exact (A_sound_sentence G tok tmatch w start occurs). Qed.
+Print Assumptions C04_A_sound_sentence.
+
+(* Completeness of layer A, proved at the specification level: the forest whose families are those the three
+   add_family call sites add over the chart of Earley/Spec stores EVERY derivation tree of w below its root, and
+   nothing else (exactness); so does any forest containing those families.
+   _partial: that lark's worklist (predict_and_complete / scan with the per-column node cache) adds exactly these
+   families is not proved here - it is the content of C01's worklist = chart theorem plus the bookkeeping of
+   item.node; on every run the harness compares, per case, the families of the captured forest with the
+   families generated by these rules (stream added-vs-forest) and the expansion of the explicit tree with a
+   brute-force enumeration of all derivations. *)
+Definition C04_A_complete_full_statement : Prop :=
+  forall (G : grammar) (tok : Type) tmatch (w : list tok) start (occurs : tok -> nat -> bool)
+         (lark_forest : nlabel tok -> family tok -> Prop),
+    (forall x i, occurs x i = true <-> nth_error w i = Some x) ->
+    (* lark_forest = the families earley.Parser.parse leaves in the SPPF *)
+    (forall lbl f, lark_forest lbl f <-> added G tok tmatch w start lbl f) ->
+    forall ds, den tok lark_forest (NSym tok start 0 (length w)) ds
+               <-> exists d, ds = [d] /\ wfd G tok tmatch d (NT start) /\ yield tok d = w.
+
+Theorem C04_A_complete_partial (G : grammar) (tok : Type) tmatch (w : list tok) start occurs :
+  (forall x i, occurs x i = true <-> nth_error w i = Some x) ->
+  (forall ds, den tok (added G tok tmatch w start) (NSym tok start 0 (length w)) ds
+              <-> exists d, ds = [d] /\ wfd G tok tmatch d (NT start) /\ yield tok d = w)
+  /\ (forall F : nlabel tok -> family tok -> Prop,
+        (forall lbl f, added G tok tmatch w start lbl f -> F lbl f) ->
+        forall d, wfd G tok tmatch d (NT start) -> yield tok d = w ->
+                  den tok F (NSym tok start 0 (length w)) [d]).
+Proof.
+  intros H. split.
+  - exact (A_exact_chart G tok tmatch w start occurs H).
+  - exact (A_complete_superset G tok tmatch w start occurs H).
+Qed.
+Print Assumptions C04_A_complete_partial.
 
 (* Non-vacuity: the forest lark builds for
      start: _i q _i     _i: A | A A     ?q: A? "a"     A: "a"          on "aaaa" (dynamic lexer)
